@@ -753,7 +753,9 @@ class Interp:
                 return ExternalRef(imp[1])
             _, mod, n = imp
             if mod in self.repo.modules:
-                v = self.resolve_global(self.repo.modules[mod], n)
+                # `from pkg import submodule` inside pkg/__init__ refers to the submodule itself
+                v = MISSING if (mod == module.name and n == name) else \
+                    self.resolve_global(self.repo.modules[mod], n)
                 if v is not MISSING:
                     return v
                 if mod + "." + n in self.repo.modules:
